@@ -1,6 +1,7 @@
 package c14
 
 import (
+	"fmt"
 	"os"
 	"testing"
 
@@ -15,3 +16,20 @@ func TestMain(m *testing.M) {
 
 func TestProp(t *testing.T)   { vt.RunAll(t, 150) }
 func TestReplay(t *testing.T) { vt.ReplayAll(t) }
+
+// TestKnownFindings re-confirms every listed known finding with its minimal reproduction.
+func TestKnownFindings(t *testing.T) {
+	for _, f := range findings {
+		if !vt.Known(f.Key) {
+			continue
+		}
+		got := runFinding(f)
+		if got != f.GoWant && f.Fn == "" {
+			vt.KnownFinding(f.Key, fmt.Sprintf("expected: %s, observed: %s; %s", f.GoWant, got, f.What))
+		} else if got != f.GoWant {
+			vt.KnownFinding(f.Key, fmt.Sprintf("%s(%s): Go %s, compiled contract %s; %s", f.Fn, fmtArgs(f.Args), f.GoWant, got, f.What))
+		} else {
+			fmt.Printf("KNOWN-FINDING-NOT-REPRODUCED: property=C14 key=%s (the reproduction now agrees with Go: %s)\n", f.Key, got)
+		}
+	}
+}
